@@ -110,7 +110,15 @@ def run_harness(exe, pid, cases, timeout, extra_env=None):
 
 def coq_eval(plugin, terms, work, tag, shard=250, timeout=1500):
     """terms: list of Coq terms of the plugin's case*obs type.  Returns {index: code} for non-zero verdicts."""
-    shards = [terms[i:i + shard] for i in range(0, len(terms), shard)]
+    # balanced shards: the longest terms first, each to the currently lightest shard (big cases do not pile up in one coqc)
+    nsh = max(1, (len(terms) + shard - 1) // shard)
+    groups = [[] for _ in range(nsh)]
+    load = [0] * nsh
+    for gi in sorted(range(len(terms)), key=lambda i: -len(terms[i])):
+        k = min(range(nsh), key=lambda j: (load[j] + (10 ** 9 if len(groups[j]) >= 2 * shard else 0), j))
+        groups[k].append(gi)
+        load[k] += len(terms[gi]) + 2000
+    groups = [sorted(g) for g in groups if g]
 
     def one(k):
         name = "cases_%s_%d" % (tag, k)
@@ -118,7 +126,7 @@ def coq_eval(plugin, terms, work, tag, shard=250, timeout=1500):
         with open(path, "w") as f:
             f.write("From CRNG Require Import Base.Bytes Check.Common %s.\n" % plugin.COQ_IMPORTS)
             f.write("Definition cases : list %s := [\n" % plugin.CASE_TYPE)
-            f.write(";\n".join(shards[k]))
+            f.write(";\n".join(terms[gi] for gi in groups[k]))
             f.write("\n].\nDefinition bad := Eval vm_compute in mismatches %s cases.\nPrint bad.\n" % plugin.VERDICT)
         rc, out, err = sh(["coqc", "-Q", COQ, "CRNG", "-w", "-notation-overridden", path], timeout)
         if rc != 0:
@@ -127,14 +135,13 @@ def coq_eval(plugin, terms, work, tag, shard=250, timeout=1500):
         if not m:
             raise Fail("cannot parse coqc output: " + out[-2000:])
         res = {}
-        for a, b in re.findall(r"\((\d+)%nat,\s*(\d+)\)|\((\d+),\s*(\d+)\)", m.group(1)) and \
-                [(x[0] or x[2], x[1] or x[3]) for x in re.findall(r"\((\d+)%nat,\s*(\d+)\)|\((\d+),\s*(\d+)\)", m.group(1))]:
-            res[k * shard + int(a)] = int(b)
+        for x in re.findall(r"\((\d+)%nat,\s*(\d+)\)|\((\d+),\s*(\d+)\)", m.group(1)):
+            res[groups[k][int(x[0] or x[2])]] = int(x[1] or x[3])
         return res
 
     out = {}
     with concurrent.futures.ThreadPoolExecutor(max_workers=14) as ex:
-        for r in ex.map(one, range(len(shards))):
+        for r in ex.map(one, range(len(groups))):
             out.update(r)
     return out
 
@@ -222,7 +229,10 @@ def _run(plugin, pid, tier, seed, work, violations, known_lines, coverage, repla
         violations.append((p, "no-failing-input-found"))
         return 1
     gate = grep_gate()
+    _t = time.time()
+    phases = coverage.setdefault("phase_s", {})
     ok, info = check_props(pid, work)
+    phases["proofs"] = round(time.time() - _t, 1)
     coverage.update({"obligations": info["obligations"], "discharged": info["discharged"], "checker_cmd": info["checker_cmd"],
                      "theorems": info["theorems"]})
     if gate or not ok:
@@ -230,7 +240,9 @@ def _run(plugin, pid, tier, seed, work, violations, known_lines, coverage, repla
         violations.append((p, "no-failing-input-found"))
         return 1
     # 2. harness from /repo's working tree
+    _t = time.time()
     exe, log = build_harness(work)
+    phases["harness_build"] = round(time.time() - _t, 1)
     if exe is None:
         p = write_replay(pid, "harness-build", {"property": pid,
                          "broken": "correspondence harness no longer builds against /repo (exported API the check relies on changed)", "log": log})
@@ -243,7 +255,11 @@ def _run(plugin, pid, tier, seed, work, violations, known_lines, coverage, repla
     else:
         cases = load_corpus(pid) + plugin.gen(rng, tier)
     ncorpus = len(load_corpus(pid)) if replay_case is None else 0
+    phases["generate"] = round(time.time() - _t, 1)
+    _t = time.time()
     results, crashed = run_harness(exe, getattr(plugin, "RUNNER", pid), cases, getattr(plugin, "HARNESS_TIMEOUT", {}).get(tier, 1500), getattr(plugin, "HARNESS_ENV", None))
+    phases["implementation_run"] = round(time.time() - _t, 1)
+    _t = time.time()
     terms, idxmap, errs, discarded = [], [], [], 0
     for i, (c, r) in enumerate(zip(cases, results)):
         if r is None:
@@ -261,7 +277,10 @@ def _run(plugin, pid, tier, seed, work, violations, known_lines, coverage, repla
             continue
         terms.append(plugin.to_coq(c, obs))
         idxmap.append(i)
+    phases["encode"] = round(time.time() - _t, 1)
+    _t = time.time()
     bad = coq_eval(plugin, terms, work, "main", shard=getattr(plugin, "SHARD", 250)) if terms else {}
+    phases["model_eval"] = round(time.time() - _t, 1)
     # verdict 7 = the executable engine (regex ...) disagrees with the Go library on this case: it says nothing about /repo
     discarded += sum(1 for v in bad.values() if v == 7)
     bad = {k: v for k, v in bad.items() if v != 7}
